@@ -151,7 +151,50 @@ pub fn check(tape: &[u32]) -> CheckResult {
         Ok(false) => return Err(Failure::new("base-not-loadable", "well-formed base failed to load").with(json!({"hex": hex(&enc.bytes[..enc.bytes.len().min(6000)])}))),
         Err((loc, msg)) => return Err(Failure::new(format!("panic:{}", short_loc(&loc)), msg)),
     }
-    let vars = variants(&s, &plan, &enc, &mut t);
+    let mut vars = variants(&s, &plan, &enc, &mut t);
+    // a sample of the variants once more with 1100 empty (ignored) chunks put in front of the first frame's chunks,
+    // so that the offending chunk is far down a long frame
+    {
+        let filler: Vec<u8> = {
+            let mut c = vec![];
+            c.extend_from_slice(&6u32.to_le_bytes());
+            c.extend_from_slice(&0x2017u16.to_le_bytes());
+            c
+        };
+        let nfill = 1100usize;
+        let deep = |b: &[u8]| -> Option<Vec<u8>> {
+            if b.len() < 144 {
+                return None;
+            }
+            let fsz = u32::from_le_bytes([b[128], b[129], b[130], b[131]]) as usize;
+            let old = u16::from_le_bytes([b[134], b[135]]) as usize;
+            let new = u32::from_le_bytes([b[140], b[141], b[142], b[143]]) as usize;
+            let n = if new != 0 { new } else { old };
+            if fsz < 16 || 128 + fsz > b.len() || n + nfill >= 0xFFFF {
+                return None;
+            }
+            let mut o = b[..144].to_vec();
+            for _ in 0..nfill {
+                o.extend_from_slice(&filler);
+            }
+            o.extend_from_slice(&b[144..]);
+            o[128..132].copy_from_slice(&((fsz + nfill * 6) as u32).to_le_bytes());
+            o[134..136].copy_from_slice(&((n + nfill) as u16).to_le_bytes());
+            o[140..144].copy_from_slice(&((n + nfill) as u32).to_le_bytes());
+            if u32::from_le_bytes([b[0], b[1], b[2], b[3]]) as usize == b.len() {
+                let l = o.len() as u32;
+                o[0..4].copy_from_slice(&l.to_le_bytes());
+            }
+            Some(o)
+        };
+        if let Some(db) = deep(&enc.bytes) {
+            if let Ok(true) = loads(&db) {
+                let step = (vars.len() / 12).max(1);
+                let extra: Vec<_> = vars.iter().step_by(step).filter_map(|(f, p, b)| deep(b).map(|d| (*f, format!("{} [after {} filler chunks]", p, nfill), d))).collect();
+                vars.extend(extra);
+            }
+        }
+    }
     let mut o = Outcome::new(true, hash_bytes(&enc.bytes));
     let mut counts: std::collections::BTreeMap<&'static str, u64> = Default::default();
     for (feat, pos, b) in &vars {
